@@ -791,7 +791,16 @@ def check_every(ctx):
     sec = prog.func(GEN + '._sort_and_format_by_section')
     fmt = prog.func(GEN + '._format_rule_default_yaml')
     fj = prog.func(GEN + '._format_rule_default_json')
-    t = Table(prog, sec)
+    # (generator helpers that hand out the defaults section by section are
+    # walked through; the formatters themselves stay calls)
+    from ..dte import inline_helpers as _ih2
+    _gen = _ih2(prog, modules={GEN}, classes=False).gen
+
+    def _only_generators(call, frame):
+        return None
+    _only_generators.gen = lambda call, frame: (
+        None if _gen(call, frame) in (fmt, fj, sec) else _gen(call, frame))
+    t = Table(prog, sec, inline=_only_generators)
     W = ctx.where(sec.module, sec.node)
     bad = None
     joined = None
@@ -956,21 +965,14 @@ _CONSUMERS = ('list', 'tuple', 'sorted', 'set', 'frozenset', 'any', 'all',
               'sum', 'max', 'min', 'dict')
 
 
-def check_walked_once(ctx):
-    """What a namespace hands over as its rule defaults may be walked only
-    once (entry points return lists, but also generators and
-    itertools.chain objects): between taking a section's collection out of
-    the policies mapping and rendering it, nothing else may iterate it - a
-    second walk of a one-shot iterable finds nothing, and the sample then
-    states none of that namespace's defaults."""
-    prog = ctx.prog
-    sec = prog.func(GEN + '._sort_and_format_by_section')
-    W = ctx.where(sec.module, sec.node)
-    pol = sec.params[0]
-    pm = parent_map(sec.node)
-    # local names holding one section's collection
+def _walk_sites(prog, fn, pol, delegates):
+    """(consumption sites in fn of the per-section collections taken out of
+    the mapping `pol`, parent map).  A call of a generator function of the
+    module that is handed the mapping is a lazy view of its sections (it is
+    recorded in `delegates` and judged on its own)."""
+    pm = parent_map(fn.node)
     names = set()
-    for n in walk_no_nested(sec.node):
+    for n in walk_no_nested(fn.node):
         if isinstance(n, ast.Assign) and len(n.targets) == 1 and isinstance(
                 n.targets[0], ast.Name) and isinstance(
                     n.value, ast.Subscript) and U(n.value.value) == pol:
@@ -987,7 +989,6 @@ def check_walked_once(ctx):
             elif method_call(n.iter)[1] == 'values' and isinstance(
                     tg, ast.Name):
                 names.add(tg.id)
-
     LAZY = ('map', 'filter', 'iter', 'enumerate', 'zip', 'reversed',
             'itertools.chain', 'chain', 'itertools.chain.from_iterable',
             'chain.from_iterable', 'itertools.islice', 'islice')
@@ -996,10 +997,26 @@ def check_walked_once(ctx):
         return (isinstance(x, ast.Name) and x.id in names) or (
             isinstance(x, ast.Subscript) and U(x.value) == pol)
 
+    def delegate(x):
+        """g(<mapping>, ..): a generator function of the program walking
+        the mapping for its caller"""
+        if not isinstance(x, ast.Call):
+            return None
+        g = prog.callee_of(fn, x)
+        if g is None or g is fn or not any(
+                isinstance(y, (ast.Yield, ast.YieldFrom))
+                for y in walk_no_nested(g.node)):
+            return None
+        for k, a in enumerate(x.args):
+            if isinstance(a, ast.Name) and a.id == pol:
+                off = 1 if (g.cls is not None and not g.is_static) else 0
+                if k + off < len(g.params):
+                    delegates.append((g, g.params[k + off]))
+                    return g
+        return None
+
     def lazy_view(x):
-        """x walks a subject only when it is walked itself: a generator
-        expression over (or of) subjects, map / chain / ... of them"""
-        if subject(x):
+        if subject(x) or delegate(x) is not None:
             return True
         if isinstance(x, ast.GeneratorExp):
             return any(lazy_view(g.iter) for g in x.generators) or \
@@ -1010,7 +1027,7 @@ def check_walked_once(ctx):
     changed = True
     while changed:
         changed = False
-        for n in walk_no_nested(sec.node):
+        for n in walk_no_nested(fn.node):
             if isinstance(n, ast.Assign) and len(n.targets) == 1 and \
                     isinstance(n.targets[0], ast.Name) and \
                     n.targets[0].id not in names and not subject(
@@ -1018,7 +1035,7 @@ def check_walked_once(ctx):
                 names.add(n.targets[0].id)
                 changed = True
     sites = []
-    for n in walk_no_nested(sec.node):
+    for n in walk_no_nested(fn.node):
         if isinstance(n, ast.For) and lazy_view(n.iter):
             sites.append(n)
         elif isinstance(n, (ast.ListComp, ast.SetComp, ast.DictComp)):
@@ -1033,49 +1050,71 @@ def check_walked_once(ctx):
             sites.append(n)
         elif isinstance(n, ast.Starred) and lazy_view(n.value):
             sites.append(n)
+        elif isinstance(n, ast.YieldFrom) and lazy_view(n.value):
+            sites.append(n)
     sites.sort(key=lambda n_: (n_.lineno, n_.col_offset))
-    if not sites:
+    return sites, pm
+
+
+def check_walked_once(ctx):
+    """What a namespace hands over as its rule defaults may be walked only
+    once (entry points return lists, but also generators and
+    itertools.chain objects): between taking a section's collection out of
+    the policies mapping and rendering it, nothing else may iterate it - a
+    second walk of a one-shot iterable finds nothing, and the sample then
+    states none of that namespace's defaults."""
+    prog = ctx.prog
+    sec = prog.func(GEN + '._sort_and_format_by_section')
+    W = ctx.where(sec.module, sec.node)
+    todo = [(sec, sec.params[0])]
+    done = set()
+    total = 0
+    bad = None
+    while todo:
+        fn, pol = todo.pop(0)
+        if (fn.qual, pol) in done:
+            continue
+        done.add((fn.qual, pol))
+        delegates = []
+        sites, pm = _walk_sites(prog, fn, pol, delegates)
+        todo.extend(delegates)
+        total += len(sites)
+
+        def chain(n, pm=pm):
+            out = []
+            cur = n
+            while cur is not None:
+                out.append(cur)
+                cur = pm.get(cur)
+            return out
+
+        def exclusive(a, b):
+            """a and b sit in different arms of one if statement"""
+            ca, cb = chain(a), chain(b)
+            for i, x in enumerate(ca):
+                if isinstance(x, ast.If) and x in cb:
+                    j = cb.index(x)
+                    if i == 0 or j == 0:
+                        return False
+                    return (ca[i - 1] in x.body and cb[j - 1] in x.orelse) \
+                        or (ca[i - 1] in x.orelse and cb[j - 1] in x.body)
+            return False
+        for i, a in enumerate(sites):
+            for b in sites[i + 1:]:
+                if not exclusive(a, b):
+                    bad = bad or (fn, a, b)
+    if total == 0:
         raise AnalysisError('no walk of a section\'s rule defaults found in '
                             '%s' % sec.qual)
-
-    def chain(n):
-        out = []
-        cur = n
-        while cur is not None:
-            out.append(cur)
-            cur = pm.get(cur)
-        return out
-
-    def exclusive(a, b):
-        """a and b sit in different arms of one if statement"""
-        ca, cb = chain(a), chain(b)
-        for i, x in enumerate(ca):
-            if isinstance(x, ast.If) and x in cb:
-                j = cb.index(x)
-                if i == 0 or j == 0:
-                    return False
-                in_body_a = ca[i - 1] in x.body
-                in_body_b = cb[j - 1] in x.body
-                in_else_a = ca[i - 1] in x.orelse
-                in_else_b = cb[j - 1] in x.orelse
-                if (in_body_a and in_else_b) or (in_else_a and in_body_b):
-                    return True
-                return False
-        return False
-    bad = None
-    for i, a in enumerate(sites):
-        for b in sites[i + 1:]:
-            if not exclusive(a, b):
-                bad = bad or (a, b)
-    ctx.ob('C17.ONCE', bad is None, ctx.where(sec.module, bad[1])
-           if bad else W, sec.qual,
-           '%d walk(s) of a section\'s rule defaults' % len(sites),
+    ctx.ob('C17.ONCE', bad is None, ctx.where(bad[0].module, bad[2])
+           if bad else W, bad[0].qual if bad else sec.qual,
+           '%d walk(s) of a section\'s rule defaults' % total,
            'each section\'s collection is walked once' if bad is None else
            'a section\'s rule defaults are walked at line %d and again at '
            'line %d: for a namespace that hands over a one-shot iterable '
            '(a generator, itertools.chain) the second walk finds nothing '
            'and the sample omits all its defaults' % (
-               bad[0].lineno, bad[1].lineno))
+               bad[1].lineno, bad[2].lineno))
 
 
 def check_fresh_output(ctx, rule='C17.FRESH-OUTPUT'):
